@@ -7,9 +7,12 @@ import (
 	"path/filepath"
 	"strings"
 	"sync"
+	"sync/atomic"
+	"syscall"
 	"time"
 
 	kv "github.com/XiXi-2024/xixi-kv"
+	"github.com/XiXi-2024/xixi-kv/fio"
 )
 
 // C16 operations of the engine runner:
@@ -71,6 +74,99 @@ func (r *EngineRunner) execLock(f []string) string {
 			r.fail("C16", "another process found the directory in use although no database is open on it (the lock outlived Close or a failed Open)")
 		}
 		return out
+	case "closebg":
+		// E closebg <cfg>: the (closed) directory is opened with EnableBackgroundMerge, two Puts make the background
+		// goroutine start a Merge at its next tick; the merge is parked in its scan (hook H3), Close is called
+		// from another goroutine, the merge is released.  Close must return and the directory must be free for
+		// another process.  Implementation-side oracle; last operation of a scenario (what the background merge
+		// leaves behind depends on the moment Close arrives).
+		{
+			if r.db != nil {
+				return "err open"
+			}
+			saved1, saved2, saved3 := fio.VerifEvent, kv.VerifFsEvent, kv.VerifMergeFile
+			fio.VerifEvent, kv.VerifFsEvent, kv.VerifMergeFile = nil, nil, nil
+			defer func() { fio.VerifEvent, kv.VerifFsEvent, kv.VerifMergeFile = saved1, saved2, saved3 }()
+			o := parseOpts(f[2:], r.dir())
+			o.EnableBackgroundMerge = true
+			parked, release := make(chan struct{}), make(chan struct{})
+			var once sync.Once
+			var noMorePark int32
+			kv.VerifSched = func(label string) {
+				if label == "merge.scan" && atomic.LoadInt32(&noMorePark) == 0 {
+					once.Do(func() { close(parked); <-release })
+				}
+			}
+			dbg, err := kv.Open(o)
+			if err != nil {
+				kv.VerifSched = nil
+				return "err " + EngErr(err)
+			}
+			_ = dbg.Put([]byte("bgk"), []byte("v1"))
+			_ = dbg.Put([]byte("bgk"), []byte("v2"))
+			note := "merge-parked"
+			select {
+			case <-parked:
+			case <-time.After(2500 * time.Millisecond):
+				note = "no-background-merge-seen"
+			}
+			closed := make(chan error, 1)
+			go func() { closed <- dbg.Close() }()
+			time.Sleep(30 * time.Millisecond)
+			atomic.StoreInt32(&noMorePark, 1) // nothing parks from now on
+			close(release)
+			select {
+			case <-closed:
+			case <-time.After(10 * time.Second):
+				r.fail("C16", "Close did not return within 10 s while a background merge was running (%s): the directory stays locked", note)
+				note += " close-stuck"
+			}
+			time.Sleep(20 * time.Millisecond)
+			kv.VerifSched = nil
+			if out := runChildOpen(r.dir(), f[2:], 0); !strings.HasPrefix(out, "ok") {
+				r.fail("C16", "after Close of a database with a background merge (%s) another process cannot open the directory: %s", note, out)
+			}
+			return "done # " + note
+		}
+	case "lockprobe":
+		// E lockprobe <cfg>: an opener that has opened the lock file but not yet locked it, overtaken by Close.
+		// The lock file is opened (raw open) while the database is open here; the database is closed; the
+		// probe now takes the advisory lock on its descriptor - it is the holder of the directory.  Another
+		// process that opens the directory must be refused as long as the probe holds the lock, and admitted
+		// once it lets go.  (Implementation-side oracle; for the model this is Close followed by an Open and
+		// Close of another process.)
+		{
+			if r.db == nil {
+				return "err closed"
+			}
+			fd, err := syscall.Open(filepath.Join(r.dir(), ".lock"), syscall.O_RDWR, 0)
+			if err != nil {
+				return "err nolockfile"
+			}
+			saved1, saved2 := fio.VerifEvent, kv.VerifFsEvent
+			fio.VerifEvent, kv.VerifFsEvent = nil, nil
+			_ = r.db.Close()
+			fio.VerifEvent, kv.VerifFsEvent = saved1, saved2
+			r.db = nil
+			r.events = nil
+			note := ""
+			if err := syscall.Flock(fd, syscall.LOCK_EX|syscall.LOCK_NB); err != nil {
+				r.fail("C16", "after Close the advisory lock on the directory's lock file cannot be taken: %v", err)
+				note = "flock-failed"
+			} else {
+				if out := runChildOpen(r.dir(), f[2:], 0); strings.HasPrefix(out, "ok") {
+					r.fail("C16", "another process opened the directory while an earlier opener (lock file opened before Close, locked after it) holds its lock: two holders")
+					note = "second-holder-admitted"
+				}
+				_ = syscall.Flock(fd, syscall.LOCK_UN)
+			}
+			_ = syscall.Close(fd)
+			out := runChildOpen(r.dir(), f[2:], 0)
+			if !strings.HasPrefix(out, "ok") {
+				r.fail("C16", "the directory cannot be opened after every holder has let go: %s", out)
+			}
+			return "ok # " + note
+		}
 	case "openbg":
 		// the (closed) directory opened with the background merge enabled: it must be held like any other
 		// open database - a second Open is rejected - and free again after Close.  The whole probe takes
